@@ -338,7 +338,7 @@ func ownGetterField(p *an.Prog, eq *ssa.Function, m string) *types.Var {
 
 func init() {
 	register(&Def{ID: "C37", Run: c37,
-		Explain:     "Decides for every IsEquivalent implementation of a directive type in the repository (found through types.Implements(directive.Directive), ≥14): either it returns constant false, or — with I the interface it asserts on the other directive and P' the getters of I that some non-directive repository code actually reads (call-site calibration) — other.p() feeds an equality test for every p in P', a true verdict is reachable only when the assertion succeeded, and each such comparison pairs other.p() with the receiver's own p (getter or the field its getter returns). Each getter must take part with its whole value (or String()/Equal form), not through a field projection.",
+		Explain:     "Decides for every IsEquivalent implementation of a directive type in the repository (found through types.Implements(directive.Directive), ≥14): either it returns constant false, or — with I the interface it asserts on the other directive and P' the getters of I that some non-directive repository code actually reads (call-site calibration) — other.p() feeds an equality test for every p in P', a true verdict is reachable only when the assertion succeeded, and each such comparison pairs other.p() with the receiver's own p (getter or the field its getter returns). Each getter must take part with its whole value (or String()/Equal form), not through a field projection. A getter compared only through a non-whole-value method of its result counts as a projection too (reviewed exceptions are tabled); (LOOPALLOC) every DialTptAddr directive is built with dialer options of its own.",
 		NotCov:      "semantic equality of the compared representations (e.g. URL.String()), and getters that no repository code reads (reported as calibration notes).",
 		Assumptions: commonAssumptions})
 }
